@@ -262,6 +262,7 @@ PURE_EXTERNAL = {
     "collections.defaultdict": lambda factory=None, *a, **k: _defaultdict(factory, *a, **k),
     "collections.OrderedDict": lambda *a, **k: dict(*a, **k),
     "collections.Counter": lambda *a, **k: __import__("collections").Counter(*a, **k),
+    "collections.deque": lambda *a, **k: __import__("collections").deque(*a, **k),
     "contextlib.suppress": lambda *excs: Obj("suppress", kinds=[getattr(e, "name", str(e)).rsplit(".", 1)[-1] for e in excs]),
 }
 def _accept_pathlike(fn):
@@ -277,6 +278,7 @@ for _k in list(PURE_EXTERNAL):
 
 # --------------------------------------------------------------------------- the clock of the modelled machine
 import datetime as _dt
+import collections as _collections
 CLOCK = 1_700_000_000.0      # seconds since the epoch "now" (file modification times are on this scale)
 UTC_OFFSET = 3600.0          # the modelled machine's local time zone is one hour east of UTC; nothing in the program may depend on it being zero
 _LOCAL_TZ = _dt.timezone(_dt.timedelta(seconds=UTC_OFFSET))
@@ -348,6 +350,8 @@ SAFE_METHODS = {
     ChainMap: {"get", "items", "keys", "values", "pop", "update", "new_child"},
     _types.MappingProxyType: {"get", "items", "keys", "values"},
     ModelDateTime: {"timestamp", "replace", "astimezone", "isoformat", "strftime", "utcoffset", "date", "time", "__sub__", "__add__", "__eq__", "__lt__", "__le__", "__gt__", "__ge__"},
+    _collections.deque: {"append", "appendleft", "pop", "popleft", "clear", "extend", "remove", "rotate", "count", "index", "copy", "__len__", "__iter__", "__contains__", "__getitem__",
+                         "__bool__"},
     _dt.timedelta: {"total_seconds", "__add__", "__sub__", "__mul__", "__neg__", "__eq__", "__lt__", "__le__", "__gt__", "__ge__"},
 }
 
@@ -1640,7 +1644,13 @@ class PureInterp:
                         default = dc[(id(cls), name)]
                     if k.arg in ("factory", "default_factory"):
                         fn = dotted(k.value)
-                        default = {"dict": dict, "list": list, "set": set}.get(fn, lambda: None)()
+                        if fn in ("dict", "list", "set"):
+                            default = {"dict": dict, "list": list, "set": set}[fn]()
+                        else:
+                            try:
+                                default = self.apply(self.eval(k.value, {}, cls.module), [], {}, 0)
+                            except (Unsupported, Raised, CantEval):
+                                default = None
             elif value is not None:
                 try:
                     default = self.eval(value, {}, cls.module)
